@@ -4,7 +4,7 @@ import os
 import re
 
 from vlib import mirutil
-from vlib.facts import diverges, walk, peel, place_path, pat_variants, pat_alternatives, CheckError, REPO, uncond_before, sp_before, conditional_ancestors, lca, path_to
+from vlib.facts import diverges, walk, peel, place_path, pat_variants, pat_alternatives, CheckError, REPO, uncond_before, sp_before, conditional_ancestors, lca, path_to, binding_site
 from vlib.report import RuleResult
 from rules.nopanic import snippet
 
@@ -361,7 +361,15 @@ def emit_mapped(F, kinds=KINDS, names=False):
                     if st.get("k") == "Let" and st["pat"].get("hid") == a2_["res"]["hid"] and isinstance(st.get("init"), dict) and sp_before(st, c):
                         uses_sel = any(x.get("k") == "Path" and x.get("res", {}).get("hid") == sel_hid for x in walk(st["init"]))
                         gets = [g for g in walk(st["init"]) if g.get("k") == "MethodCall" and g["method"] == "get"]
-                        if uses_sel and gets:
+                        # a miss in the selected map must fail loudly: each lookup is unwrapped/expected, and no
+                        # `unwrap_or(export.index)`-style fallback conflates "kind has no map" with "id not in the map"
+                        loud = all(any(m_.get("k") == "MethodCall" and m_.get("recv") is g and (m_["method"] in ("unwrap", "expect") or (
+                                       m_["method"] == "unwrap_or_else" and m_.get("args") and peel(m_["args"][0]).get("k") == "Closure" and diverges(peel(m_["args"][0])["body"])))
+                                       for m_ in walk(st["init"])) for g in gets)
+                        soft = any(m_.get("k") == "MethodCall" and m_["method"] in ("unwrap_or", "unwrap_or_default", "unwrap_or_else", "or", "or_else") and not (
+                                   m_["method"] == "unwrap_or_else" and m_.get("args") and peel(m_["args"][0]).get("k") == "Closure" and diverges(peel(m_["args"][0])["body"]))
+                                   for m_ in walk(st["init"]))
+                        if uses_sel and gets and loud and not soft:
                             assigned = True
             # shape B: `let idx = match export.kind { Func => *func_map.get(..), .. }; exports.export(.., idx)`
             idx_from_dispatch = False
@@ -1531,10 +1539,11 @@ def encode_writes(F):
         return re.sub(r"<.*", "", (t or "").replace("&mut ", "").replace("&", "")).split("::")[-1]
 
     pats = {}
+    occ = {}
     for p in sorted(seen):
         f = F.by_path[p][0]
-        if f.get("body") is None:
-            continue
+        if f.get("body") is None or f.get("hidden_helper"):
+            continue        # a helper inlined at all its call sites is seen inside its callers
         for n in walk(f["body"]):
             key = None
             if n.get("k") in ("Assign", "AssignOp"):
@@ -1543,6 +1552,16 @@ def encode_writes(F):
                     l = l.get("a") or l.get("base")
                 if isinstance(l, dict) and l.get("k") == "Field":
                     key = "%s.%s =" % (base(l.get("base_ty")), l["name"])
+                elif isinstance(l, dict) and l.get("k") == "Path" and l.get("res", {}).get("r") == "local":
+                    # `*b = ..` where b is the `&mut` binding a pattern gives to a field of one of the crate's own IR types
+                    # (`DataSegmentKind::Active { memory_index, .. } => *memory_index = ..`): a write to that field
+                    pat_, _scr, _k = binding_site(f["body"], l["res"]["hid"])
+                    if pat_ is not None:
+                        for s_ in walk(pat_):
+                            if s_.get("k") == "Struct" and isinstance(s_.get("fields"), list) and (s_.get("adt") or "").startswith("ir::"):
+                                for item in s_["fields"]:
+                                    if isinstance(item, list) and isinstance(item[1], dict) and any(b.get("k") == "Binding" and b.get("hid") == l["res"]["hid"] for b in walk(item[1])):
+                                        key = "%s.%s =" % (base(s_["adt"]), item[0])
             elif n.get("k") == "MethodCall" and (n["method"] in ENC_MUT or n["method"].startswith(("sort", "dedup", "retain", "drain", "extend", "swap", "split_off", "rotate", "resize", "truncate"))):
                 l = peel(n["recv"])
                 while isinstance(l, dict) and l.get("k") in ("Unary", "Index", "AddrOf"):
@@ -1551,12 +1570,19 @@ def encode_writes(F):
                     key = "%s.%s.%s()" % (base(l.get("base_ty")), l["name"], n["method"])
             if key:
                 pats.setdefault(key, (f, n))
+                occ.setdefault(key, []).append((f, n))
     r.analysed += sorted(seen)[:30]
     r.count("encode_reachable_fns", len(seen))
     r.count("write_patterns", len(pats))
     vanished = [k for k in rows if k not in pats and not rows[k].get("optional")]   # optional rows: shapes the same write takes after a refactoring
     for key, (f, n) in sorted(pats.items()):
         ok = key in rows
+        if ok and rows[key].get("only_in"):
+            # a row reviewed for one place only (e.g. the code-section loop): the same access elsewhere is a new mutation
+            stray = [(f_, n_) for f_, n_ in occ[key] if f_["name"] not in rows[key]["only_in"]]
+            if stray:
+                ok = False
+                f, n = stray[0]
         if not ok:
             # a field/ADT rename shows up as one reviewed pattern vanishing and one unknown pattern with the same operation
             # appearing: report it as information, not as a new mutation
